@@ -10,7 +10,7 @@
 EXTENDS IEEE, BvLane
 
 FloatOpsC02 == {"add", "sub", "mul", "div", "sqrt", "neg", "abs", "copysign", "and", "or", "xor", "not", "andnot", "bitofsign",
-                "fma", "fms", "fnma", "fnms", "min", "max", "sign", "signnz", "nextafter",
+                "fma", "fms", "fnma", "fnms", "min", "max", "fmin", "fmax", "sign", "signnz", "nextafter",
                 "op+", "op-", "op*", "op/", "op-u", "op&", "op|", "op^", "op~"}
 FloatOpsC08 == {"ceil", "floor", "trunc", "round", "nearbyint", "rint"}
 FloatPreds == {"isnan", "isinf", "isfinite", "is_flint", "is_even", "is_odd"}
@@ -35,8 +35,8 @@ FloatRel(op, f, x, y, z, r) ==
     [] op = "fms"      -> FmaOK(f, x, y, FlipSign(f, z), r)
     [] op = "fnma"     -> FmaOK(f, FlipSign(f, x), y, z, r)
     [] op = "fnms"     -> FmaOK(f, FlipSign(f, x), y, FlipSign(f, z), r)
-    [] op = "min"      -> FMinOK(f, x, y, r)
-    [] op = "max"      -> FMaxOK(f, x, y, r)
+    [] op \in {"min", "fmin"} -> FMinOK(f, x, y, r)
+    [] op \in {"max", "fmax"} -> FMaxOK(f, x, y, r)
     [] op = "clip"     -> (IsNaN(f, x) \/ IsNaN(f, y) \/ IsNaN(f, z) \/ ~FLe(f, y, z)) \/
                           (IF FLt(f, x, y) THEN r = y ELSE IF FLt(f, z, x) THEN r = z ELSE r = x)        \* clip(x, lo, hi), ordered non-NaN bounds
     [] op = "sign"     -> IF IsNaN(f, x) THEN IsNaN(f, r) ELSE IF IsZeroF(f, x) THEN IsZeroF(f, r) ELSE r = WithSign(f, One_(f), SignOf(f, x))
